@@ -664,6 +664,8 @@ fn run_shard<P: Prop>(
                 cases: cases as u32,
                 failure_persistence: None,
                 max_shrink_iters: 3000,
+                // minimality only, never the verdict: stop shrinking after 3 minutes per shard
+                max_shrink_time: 180_000,
                 max_global_rejects: 1_000_000,
                 max_local_rejects: 1_000_000,
                 ..Config::default()
